@@ -79,6 +79,48 @@ func (ei *elemInvariant) strNonEmpty(x ssa.Value, f *ssa.Function, at ssa.Instru
 		return ei.sliceElemsNonEmpty(v.X, f, depth+1)
 	case *ssa.Extract:
 		// range over a string slice via Next is not produced for slices
+	case *ssa.Parameter:
+		// a parameter of an unexported function whose address is never taken:
+		// every call site in the package passes a non-empty string
+		g := v.Parent()
+		if g == nil || !smallHelper(g) || g.Parent() != nil {
+			return false
+		}
+		idx := -1
+		for i, q := range g.Params {
+			if q == v {
+				idx = i
+			}
+		}
+		if idx < 0 {
+			return false
+		}
+		nSites := 0
+		for _, caller := range ei.p.Funcs {
+			okAll := true
+			eachInstr(caller, func(ins ssa.Instruction) {
+				// the function used as a value: unknown callers
+				for _, op := range ins.Operands(nil) {
+					if *op == ssa.Value(g) {
+						if c, isCall := ins.(ssa.CallInstruction); !isCall || c.Common().Value != ssa.Value(g) {
+							okAll = false
+						}
+					}
+				}
+				c, ok := ins.(*ssa.Call)
+				if !ok || c.Common().StaticCallee() != g {
+					return
+				}
+				nSites++
+				if !ei.strNonEmpty(c.Common().Args[idx], caller, c, depth+1) {
+					okAll = false
+				}
+			})
+			if !okAll {
+				return false
+			}
+		}
+		return nSites > 0
 	}
 	return false
 }
